@@ -128,6 +128,9 @@ def configs(tier):
                   "major": {"1": 1, "3": 1}, "mode": "noise", "phase": "A"})
         c.append({"gene": "GA", "genome": genome, "cn": ["1", "1"],
                   "major": {"3": 1, "4": 1}, "mode": "noise", "phase": "A"})
+        # (first site of GA *3/*4 is the insertion of *3, last the deletion of *4)
+        c.append({"gene": "GA", "genome": genome, "cn": ["1", "1"],
+                  "major": {"3": 1, "4": 1}, "mode": "noise", "phase": "C"})
         # fused alleles: fragments that span the fusion break point
         c.append({"gene": "toy", "genome": genome, "cn": ["1", "4"],
                   "major": {"1": 1, "4#3": 1}, "mode": "noise", "phase": "A"})
@@ -206,6 +209,10 @@ def make_phases(gene, muts, which):
     }
     if which == "B" and len(sites) > 2:
         ph["r4"] = {s0: "_", sites[1]: bypos[sites[1]][0], s1: "_"}
+    if which == "C":
+        # four fragments that link the first and the last site's variants: together they
+        # outweigh the penalty of adding a variant to the allele that lacks it
+        ph = {f"r{i}": {s0: bypos[s0][0], s1: bypos[s1][0]} for i in range(1, 5)}
     return ph
 
 
